@@ -304,7 +304,8 @@ impl Trigger for SharedScript {
 pub fn sizes_around(limit: u64, rng: &mut Rng) -> Option<usize> {
     // payload sizes so that whole frames land around the limit and the 1 KiB buffer
     let overhead = 14usize;
-    let l = limit as usize;
+    // (a limit may be as large as u64::MAX: "never roll")
+    let l = limit.min(6000) as usize;
     match rng.below(12) {
         0 => None, // empty record
         1 => Some(0),
